@@ -70,10 +70,14 @@ type enqRec struct {
 	preStop  bool // returned before Stop was invoked
 }
 
-func newEnv(queue, batch int) *env {
+func newEnv(queue, batch int, timeout ...time.Duration) *env {
+	batchTimeout := 10 * time.Millisecond
+	if len(timeout) > 0 {
+		batchTimeout = timeout[0]
+	}
 	st := mapdb.NewMapDB()
 	e := &env{store: st, objs: map[byte]*obj{}}
-	e.bw = kvstore.NewBatchedWriter(&obsStore{st}, kvstore.WithQueueSize(queue), kvstore.WithBatchSize(batch), kvstore.WithBatchTimeout(10*time.Millisecond))
+	e.bw = kvstore.NewBatchedWriter(&obsStore{st}, kvstore.WithQueueSize(queue), kvstore.WithBatchSize(batch), kvstore.WithBatchTimeout(batchTimeout))
 	for _, id := range []byte{1, 2, 3} {
 		e.objs[id] = &obj{id: id}
 	}
@@ -239,6 +243,18 @@ func scenarios() []*sched.Scenario {
 			e.check()
 		}})
 	}
+	// a zero batch time-out is legal (the timer fires at once): a batch that is not full must still be committed and
+	// Stop must still return
+	out = append(out, &sched.Scenario{Name: "A-producers-then-stop/q1b8-timeout0", EnvBudget: 2, QuickMaxBound: 2, Run: func() {
+		e := newEnv(1, 8, 0)
+		vrt.Par(
+			func() { e.enqueue(1); e.enqueue(2) },
+			func() { e.enqueue(3) },
+		)
+		e.stop()
+		vrt.Quiesce()
+		e.check()
+	}})
 	return out
 }
 
